@@ -108,8 +108,47 @@ def impl_run(case):
     finally:
         pyr.reset_pyrates()
 
+def build_edge(case):
+    """flat circuit of structurally identical nodes u' = s_in; every edge carries an EdgeTemplate (m = u_s*u_t + u_s) whose
+    extra input u_t is mapped BY PATH to a node variable (the Kuramoto `sin_edge` feature)"""
+    from pyrates import OperatorTemplate, NodeTemplate, CircuitTemplate, EdgeTemplate
+    po = OperatorTemplate(name="po", equations=["u' = s_in"], variables={"u": "output(0.0)", "s_in": "input(0.0)"}, path=None)
+    co = OperatorTemplate(name="co", equations=["m = u_s*u_t + u_s"],
+                          variables={"m": "output(0.0)", "u_s": "input(0.0)", "u_t": "input(0.0)"}, path=None)
+    edge = EdgeTemplate(name="ce", path=None, operators=[co])
+    names = [n for n, _ in case["nodes"]]
+    nodes = {n: NodeTemplate(name=n, path=None, operators={po: {"u": float(Fr(v))}}) for n, v in case["nodes"]}
+    edges = [(f"{names[s]}/po/u", f"{names[t]}/po/s_in", edge,
+              {"weight": float(Fr(w)), "ce/co/u_s": "source", "ce/co/u_t": f"{names[r]}/po/u"}) for s, t, w, r in case["edges"]]
+    return CircuitTemplate(name="c", path=None, nodes=nodes, edges=edges)
+
+def impl_edge(case):
+    import numpy as np
+    import pyr
+    from pyr import fracs
+    pyr.reset_pyrates()
+    try:
+        d = build_edge(case)
+        try:
+            func, args, arg_names, smap = d.get_run_func("vf", DT, file_name="c06_ef", vectorize=bool(case["vectorize"]),
+                                                         backend="default", float_precision="float64", solver="euler",
+                                                         in_place=True, clear=False, verbose=False)
+            y0 = np.asarray(args[1], dtype=np.float64).reshape(-1).copy()
+            dy = np.asarray(func(*args), dtype=np.float64).reshape(-1)
+        except Exception as e:
+            return dict(raised=type(e).__name__, msg=str(e)[:200])
+        sp = lambda s: s.split("/")
+        layout = dict(labels=[[sp(k), sp(v)] for k, v in d._vectorization_labels.items()],
+                      vidx=[[sp(k), [int(i) for i in v]] for k, v in d._vectorization_indices.items()],
+                      f2b=[[sp(k), v.name] for k, v in d._ir._front_to_back.items()],
+                      svi=[[k, [int(v[0]), int(v[1]) - int(v[0])] if isinstance(v, (tuple, list)) else [int(v), 1]]
+                           for k, v in d._ir.graph._state_var_indices.items()], tsvi=[], rates=[])
+        return dict(layout=layout, y0=fracs(y0), dy=fracs(dy))
+    finally:
+        pyr.reset_pyrates()
+
 def impl(case):
-    return impl_gn(case) if case["kind"] == "gn" else impl_run(case)
+    return impl_gn(case) if case["kind"] == "gn" else impl_edge(case) if case["kind"] == "edge" else impl_run(case)
 
 # ---------------------------------------------------------------------------------------------- generator
 CNAMES = ["c1", "c2", "c3", "c4", "c5"]
@@ -257,15 +296,26 @@ def gen_run(rng, in_guard_only=False):
         reqs.append(["z", "/".join(list(lv[0]) + [o, "u" if o == "ou" else "x"])])
     return dict(kind="run", tree=tree, form=form, reqs=reqs, vectorize=True if "pops" in tree else rng.random() < 0.65)
 
+def gen_edge(rng):
+    n = rng.randint(2, 4)
+    vals = rng.sample(range(2, 40), n)
+    nodes = [[NNAMES[i], str(Fr(v, 2))] for i, v in enumerate(vals)]
+    pairs = [(s, t) for s in range(n) for t in range(n) if s != t]
+    rng.shuffle(pairs)
+    edges = [[s, t, str(Fr(rng.choice([-3, -2, -1, 1, 2, 3, 5]), 2)), rng.randrange(n)] for s, t in pairs[:rng.randint(1, min(4, len(pairs)))]]
+    return dict(kind="edge", nodes=nodes, edges=edges, vectorize=rng.random() < 0.7)
+
 def run_variants(rng, case):
     """the same request on the same circuit with shuffled declaration order / the other vectorize setting"""
     v = [dict(case, tree=shuffle_tree(rng, case["tree"]))]
     return v if "pops" in case["tree"] else v + [dict(case, vectorize=not case["vectorize"])]
 
 def nontrivial(case):
-    lv = leaves(case["tree"])
+    lv = leaves(case["tree"]) if "tree" in case else []
     if case["kind"] == "gn":
         return len(lv) >= 2 and ("all" in case["pat"] or len(case["pat"]) >= 2)
+    if case["kind"] == "edge":     # an edge whose path-mapped extra source is not the first declared node
+        return any(r != 0 for _, _, _, r in case["edges"])
     first = lv[0][0] if lv else None
     hit = set()
     for _, p in case["reqs"]:
@@ -338,6 +388,23 @@ Definition r_g7 (c : rcase) := let '(t, L, f, reqs, times, rates, vr, ob) := c i
 FIXES = [x for x in os.environ.get("VERIF_C06_FIXES", "D31,overlap").split(",") if x and x != "none"]
 HEADER = HEADER.replace("@D31@", "true" if "D31" in FIXES else "false").replace("@OVERLAP@", "true" if "overlap" in FIXES else "false")
 DROPPED = (["names_resolve"] if "D31" in FIXES else []) + (["no_overlap"] if "overlap" in FIXES else [])
+HEADER += """(* ---- stream edge *)
+Definition ecase := (layout * list Qc * list Qc * list (pedge Qc) * list (path * Qc) * list path * bool)%type.
+Definition q0 : Qc := mkq 0 1.
+Definition val_of (vals : list (path * Qc)) (v : path) : Qc := match passoc v vals with Some x => x | None => q0 end.
+Definition e_ok (impl : bool) (c : ecase) : bool :=
+  let '(L, y0, dy, es, vals, nodes, raised) := c in
+  negb raised &&
+  forallb (fun tv => match pos L tv 0 with
+                     | Some k => qeqb (nth k dy (mkq (-1) 1))
+                                      (if impl then edge_deriv_impl Qc Qcplus Qcmult q0 L y0 es tv
+                                       else edge_deriv_spec Qc Qcplus Qcmult q0 (val_of vals) es tv)
+                     | None => false
+                     end) nodes.
+Definition e_okI := e_ok true.
+Definition e_okS := e_ok false.
+Definition e_wf (c : ecase) := true.
+"""
 G_GUARDS = ["names_resolve", "not_too_long", "not_too_short"]
 R_GUARDS = ["names_resolve", "not_too_long", "not_too_short", "no_overlap", "no_pop_in_wildcard", "fresh_template", "covers"]
 
@@ -394,10 +461,22 @@ def coq_run(case, out):
     return (f"({ctree(case['tree'])}, {clayout(L)}, {form}, {clist(reqs)}, {clist([cq(t) for t in times])}, "
             f"{clist([cq(r) for r in L['rates']])}, ({clist(vr)}, {clist(U)}), ({ob} : obs))")
 
+def coq_edge(case, out):
+    names = [n for n, _ in case["nodes"]]
+    var = lambda i: cpath([names[i], "po", "u"])
+    es = clist([f"({var(s)}, {var(t)}, {cq(w)}, {var(r)})" for s, t, w, r in case["edges"]])
+    vals = clist([f"({var(i)}, {cq(v)})" for i, (_, v) in enumerate(case["nodes"])])
+    nodes = clist([var(i) for i in range(len(names))])
+    if "raised" in out:
+        empty = "{| labels := []; vidx := []; f2b := []; svi := []; tsvi := [] |}"
+        return f"({empty}, [], [], {es}, {vals}, {nodes}, true)"
+    return (f"({clayout(out['layout'])}, {clist([cq(v) for v in out['y0']])}, {clist([cq(v) for v in out['dy']])}, "
+            f"{es}, {vals}, {nodes}, false)")
+
 def model_compare(ctx, kind, cases, outs, tag):
     """returns (bad_vs_Impl, bad_vs_Spec, not_wf, {guard name: indices where it is false})"""
-    pre, ty, guards = ("g", "gcase", G_GUARDS) if kind == "gn" else ("r", "rcase", R_GUARDS)
-    conv = coq_gn if kind == "gn" else coq_run
+    pre, ty, guards = ("g", "gcase", G_GUARDS) if kind == "gn" else ("e", "ecase", []) if kind == "edge" else ("r", "rcase", R_GUARDS)
+    conv = coq_gn if kind == "gn" else coq_edge if kind == "edge" else coq_run
     badI, badS, nwf, gf = [], [], [], {g: [] for g in guards}
     shard = 250 if kind == "gn" else 60
     for s in range(0, len(cases), shard):
@@ -415,7 +494,11 @@ def model_compare(ctx, kind, cases, outs, tag):
     return badI, badS, nwf, gf
 
 def model_outputs(ctx, case, out):
-    if case["kind"] == "gn":
+    if case["kind"] == "edge":
+        body = (f"Definition c : ecase := {coq_edge(case, out)}.\n"
+                "Eval vm_compute in (let '(L, y0, dy, es, vals, nodes, raised) := c in "
+                "(map (fun tv => (pos L tv 0, edge_deriv_impl Qc Qcplus Qcmult q0 L y0 es tv, edge_deriv_spec Qc Qcplus Qcmult q0 (val_of vals) es tv)) nodes, dy)).\n")
+    elif case["kind"] == "gn":
         body = (f"Definition c : gcase := {coq_gn(case, out)}.\n"
                 "Eval vm_compute in (let '(t, v, pat, ob) := c in (get_nodes_gen FX t v pat, path_denotation t v pat)).\n")
     else:
@@ -464,10 +547,12 @@ def check(ctx):
     pr = proof_gate(ctx, NEEDS)
     problem = proof_problem(pr)
     n_gn, n_run = (1000, 56) if ctx.tier == "quick" else (20000, 900)
+    n_edge = 60 if ctx.tier == "quick" else 1500
     if ctx.replay:
         rp = json.load(open(ctx.replay))
         cases = [rp["case"]] if "case" in rp else []
         gn = [c for c in cases if c["kind"] == "gn"]; rn = [c for c in cases if c["kind"] == "run"]
+        ed = [c for c in cases if c["kind"] == "edge"]
     else:
         corpus = load_corpus("C06")
         gn = [c for c in corpus if c["kind"] == "gn"] + [gen_gn(ctx.rng) for _ in range(n_gn)]
@@ -475,8 +560,12 @@ def check(ctx):
         for _ in range(n_run):
             c = gen_run(ctx.rng)
             rn += [c] + run_variants(ctx.rng, c)
+        ed = [c for c in corpus if c["kind"] == "edge"]
+        for _ in range(n_edge):
+            c = gen_edge(ctx.rng)
+            ed += [c, dict(c, vectorize=not c["vectorize"])]
     all_cases, all_outs, crashed, badI, badS, gv = [], [], [], [], [], {}
-    for kind, cs in (("gn", gn), ("run", rn)):
+    for kind, cs in (("gn", gn), ("run", rn), ("edge", ed)):
         if not cs:
             continue
         o, cr, bI, bS, g = stream(ctx, kind, cs, "main")
@@ -493,7 +582,8 @@ def check(ctx):
              guard_viol=gv, show=show, spec_name="Paths.path_denotation / Paths.spec_columns (the variable named in the label)",
              impl_name="Paths.get_nodes / Paths.run_columns", witness_check=witness_check_factory(ctx))
     nt = {canon(c) for c in all_cases if nontrivial(c)}
-    hist = dict(gn=len(gn), run=len(rn),
+    hist = dict(gn=len(gn), run=len(rn), edge=len(ed), edge_vectorized=sum(1 for c in ed if c["vectorize"]),
+                edge_ref_not_first=sum(1 for c in ed if any(r != 0 for _, _, _, r in c["edges"])),
                 gn_depths={d: sum(1 for c in gn if depth_of(c["tree"]) == d) for d in range(5)},
                 gn_with_all=sum(1 for c in gn if "all" in c["pat"]), gn_with_var=sum(1 for c in gn if c["var"]),
                 gn_raised=sum(1 for c, o in zip(all_cases, all_outs) if c["kind"] == "gn" and isinstance(o, dict) and "raised" in o),
@@ -511,8 +601,11 @@ def check(ctx):
                         "dict/list outputs, 1-3 keys, vectorize on/off, each case also with shuffled declaration order and with the other "
                         "vectorize setting; 40 % of the flat circuits also carry 1-2 PopulationTemplates of 2-5 units with distinct per-unit rates, "
                         "requested alone, next to scalar outputs, by wildcard and in list form; non-trivial = >= 2 leaves and a returned column of a node other than the first declared one.  "
+                        "edge: flat circuits of 2-4 structurally identical nodes (distinct dyadic values), 1-4 edges each with an EdgeTemplate "
+                        "(m = u_s*u_t + u_s) whose extra input is mapped by path to a random node, each with vectorize on and off; the derivative of "
+                        "every node from the real compiled function is compared; non-trivial = the addressed node is not the first declared.  "
                         "distinct = distinct canonical JSON",
-                   samples=[gn[0] if gn else None, rn[0] if rn else None],
+                   samples=[gn[0] if gn else None, rn[0] if rn else None, ed[0] if ed else None],
                    extra=dict(input_distribution=hist, impl_vs_model_mismatches=len(badI), impl_vs_spec_mismatches=len(badS)),
                    trusted_base=["float64 Euler integration of x' = k with dyadic k and dt = 1/8 is exact (checked: every value is compared as an exact rational)",
                                  "layout (_vectorization_labels/_indices, _front_to_back, _state_var_indices) and the state-ordered rate vector are read "
